@@ -13,6 +13,7 @@ CONFIGS = {
     "cxx14-f16c":    ("g++", "-std=c++14", ["-mf16c"], "f16c"),
     "cxx14-f16c-upward": ("g++", "-std=c++14", ["-mf16c", "-DSWEEP_FE_UPWARD", "-frounding-math"], "f16c"),   # hardware path under fesetround(FE_UPWARD)
     "cxx14-table-upward": ("g++", "-std=c++14", ["-DSWEEP_FE_UPWARD", "-frounding-math"], "sw"),
+    "cxx14-notable-daz": ("g++", "-std=c++14", ["-DIMATH_HALF_NO_LOOKUP_TABLE", "-DSWEEP_DAZ_FTZ"], "sw"),   # bit-shift path with denormals-are-zero / flush-to-zero set in MXCSR
     "c-table":       ("gcc", "", [], "sw"),
     "c-notable":     ("gcc", "", ["-DIMATH_HALF_NO_LOOKUP_TABLE"], "sw"),
     "clang14-table": ("clang++", "-std=c++14", [], "sw"),
